@@ -114,6 +114,10 @@ UNITS = {
         'engine': 'verus', 'complete': True,
         'title': 'hexescape::<N> closures: exactly N digits, hex value, Unicode scalar values only (unbounded, under assumed from_str_radix / char::from_u32 contracts)',
     },
+    'V13': {
+        'engine': 'verus', 'complete': True,
+        'title': 'location of deserialization errors: every map_err closure of ValueDeserializer / TableMapAccess / Deserializer attaches the value (or key) span only when the error has none, adds the key, attaches the source text; accessors of de::Error and TomlError (unbounded)',
+    },
     'V12': {
         'engine': 'verus', 'complete': True,
         'title': 'float literal conversion closure of fn float: value = str::parse::<f64> of the text with every _ removed; guard = not infinite (unbounded, under assumed replace / parse / is_infinite contracts)',
@@ -190,7 +194,7 @@ PLAN = {
     'C05': {'quick': ['V3', 'K12'], 'thorough': ['V3', 'K12']},
     'C12': {'quick': ['V4', 'V5', 'V6', 'V7', 'V11', 'K2', 'K3q'], 'thorough': ['V4', 'V5', 'V6', 'V7', 'V11', 'K2', 'K2y', 'K3q', 'K3t', 'K3a']},
     'C14': {'quick': ['K11', 'K14', 'K14r'], 'thorough': ['K11', 'K14', 'K14r']},
-    'C15': {'quick': ['V10', 'K8'], 'thorough': ['V10', 'K8', 'K8t']},
+    'C15': {'quick': ['V10', 'V13', 'K8'], 'thorough': ['V10', 'V13', 'K8', 'K8t']},
 }
 
 LEVEL = 'proof'
